@@ -146,6 +146,14 @@ Section Mx.
     fun r c => if beq r c then (if all_false c then v else v^*) else 0.
 End Mx.
 
+(** ProjectorControlledPhaseShift.as_matrix:  expm(1j * theta * (a * |0..0><0..0| + b * identity)).
+    The translator reads a and b; the argument of expm is diagonal, so the matrix is
+    diag(exp(i theta (a + b)), exp(i theta b), ..., exp(i theta b))  (expm of a diagonal
+    matrix = diagonal of the exponentials: background; [ph q] stands for exp(i q theta)). *)
+Record pmat_src := { pm_proj : Q; pm_id : Q }.
+Definition pmat_mx {K : Scalar} (ph : Q -> K) (s : pmat_src) : BMx K :=
+  fun r c => if beq r c then ph (if all_false c then (pm_proj s + pm_id s)%Q else pm_id s) else s0.
+
 (* ------------------------------------------------------------------ eigenvalue transformation *)
 Inductive letter :=
 | LP (k : Z)         (* phase shift with angle theta_seq[k] (kron identity on the system) *)
